@@ -18,6 +18,13 @@ def gen_lines(rng, impl, tier):
         exts = ';'.join(e for e in ([] if ws[6] == '-' else ws[6].split(';')) if e.split(':')[0] in ('65281', '23', '22', '11', '16', '0')) or '-'
         if exts != '-' and '0:' in exts:
             exts = ';'.join(e for e in exts.split(';') if not e.startswith('0:')) or '-'
+        # and the extensions the repository tests parse on their own, inside a server hello and in front of others
+        sx = [] if exts == '-' else exts.split(';')
+        for _ in range(rng.choice([0, 1, 2])):
+            t, pl = rng.choice(tlsgen.harvested_server_extensions())
+            if all(not e.startswith('%d:' % t) for e in sx):
+                sx.insert(rng.randrange(len(sx) + 1), '%d:%s' % (t, pl))
+        exts = ';'.join(sx) or '-'
         known = tlsgen.codes_of('TlsCipherSuiteFactory')
         suite = ([int(c) for c in ws[4].split(',') if int(c) in known and int(c) not in (0x5600, 0x00ff)] or [0xc02f])[0]
         comp = ([int(c) for c in ws[5].split(',') if int(c) in tlsgen.codes_of('TlsCompressionMethodFactory')] or [0])[0]
@@ -103,6 +110,9 @@ def run(chk):
                 dec_lines += ['certreqdec %s %s' % (w, m[3:]), 'certreqdec %s %s' % (w, m[3:] + framegen.rnd_bytes(rng, 3).hex())]
             elif l.startswith('certstenc') and m.startswith('OK '):
                 dec_lines += ['certstdec ' + m[3:], 'certstdec ' + m[3:] + '0b000000']
+            elif l.startswith(('shenc ', 'hrrenc ')) and m.startswith('OK '):
+                ty = '2' if l.startswith('shenc') else '6'
+                dec_lines += ['shdec %s %s' % (ty, m[3:]), 'shdec %s %s' % (ty, m[3:] + '0e000000')]
         # SSL 2.0 records over the whole 15-bit length of the two-byte header: server hellos with certificates of up to ~32 KiB
         # encoded by the specification, wrapped in a record by the specification, parsed by the implementation
         sh = ['ssl2shenc 0 1 %s 65664 %s' % (bytes(i % 253 for i in range(L)).hex(), framegen.rnd_bytes(rng, 16).hex())
